@@ -40,6 +40,13 @@ def gen_schedule(rng, kind, idx):
     if kind == "hot":
         # many overlapping transactions that all write one key: first committer wins (C04)
         ncthreads, per, mem, vlen, p_dup, p_hot = rng.choice([3, 4, 6, 8]), rng.choice([1, 2, 3]), rng.choice([4096, 65536]), rng.choice([8, 24]), 0.1, 0.9
+    early = False
+    if kind == "early":
+        # speculative grants (harness parameter early=1): a committer waiting for its completion is scheduled as soon
+        # as its batch has been dequeued; on code that acknowledges before the horizon has moved it returns at
+        # once and a reader that begins next does not see the commit (real-time order); on the pinned code it
+        # blocks and the watchdog takes the token back after steal_ms (the run is then flagged imprecise)
+        ncthreads, per, mem, early = rng.choice([3, 4, 6]), rng.choice([1, 2]), 65536, True
     if kind == "dup":
         # duplicated keys + rotations in the middle of batches + many concurrent committers
         ncthreads, per, mem, vlen, p_dup = rng.choice([6, 8, 10]), 3, rng.choice([1536, 2048]), rng.choice([24, 40, 60]), 0.8
@@ -60,7 +67,7 @@ def gen_schedule(rng, kind, idx):
             sizes[cid] = (n, flags)
             cid += 1
         threads.append("c:" + "/".join(specs))
-    nrt = rng.choice([1, 2, 3])
+    nrt = rng.choice([1, 2, 3]) if kind != "early" else 3
     rid = 0
     for _ in range(nrt):
         probes = []
@@ -75,6 +82,8 @@ def gen_schedule(rng, kind, idx):
     seed = rng.randrange(1, 1 << 40)
     params = "seed=%d,mode=%s,depth=%d,mem=%d,vlen=%d,memlimit=%d,l0max=%d,l0limit=%d" % (
         seed, mode, rng.choice([1, 2, 3, 5]), mem, vlen, memlimit, l0max, l0limit)
+    if early:
+        params += ",early=1,steal_ms=60"
     return dict(params=params, threads="|".join(threads), ncommit=cid, nrdr=rid, memlimit=memlimit, l0limit=l0limit,
                 sizes=sizes, fail=None, kind=kind, idx=idx)
 
